@@ -176,13 +176,57 @@ def pattern_value_pairing(F, rep, fns):
                        "a (sub)slice, and the suffix patterns are paired with the slice starting at len - suffix.len()")
     REORDER = {"rev", "step_by", "chain", "cycle", "filter", "filter_map", "rposition", "sorted", "sort", "reverse"}   # skip(1) over a tag element is order-preserving and used by TupleStruct patterns
     n = 0
-    for it in F.syn(CRATE):
-        if it["k"] != "fn" or not it["mod"].endswith("patterns") or not it.get("body"):
-            continue
+    pat_fns = [it for it in F.syn(CRATE) if it["k"] == "fn" and it["mod"].endswith("patterns") and it.get("body")]
+
+    def own_zips(it):
+        return [m for m in find(it["body"], "mcall") if m[2] == "zip" and m[4]]      # in a `for` header, a named local, or an adaptor chain alike
+
+    def parametric(it, z):
+        """a zip in a private helper one of whose operands IS a parameter (`patterns.iter().zip(values)`): which lists it pairs is decided by each caller"""
+        if not Q.is_private(it):
+            return False
+        ps = set(p for p in Q.params(it) if p)
+        for o in (z[1], z[4][0]):
+            base = o
+            while is_node(base) and base[0] in ("mcall", "ref", "un", "index", "field", "try", "cast"):
+                base = base[1] if base[0] in ("mcall", "index", "field", "try", "cast") else base[2]
+            if is_node(base) and base[0] == "path" and base[1] in ps:
+                return True
+        return False
+
+    helpers = {id(it): it for it in pat_fns if any(parametric(it, z) for z in own_zips(it))}
+    called = set()
+    for it in pat_fns:
+        for c in find(it["body"], "call"):
+            h = fns.callee(c, it["mod"])
+            if h is not None and id(h) in helpers and h is not it:
+                called.add(id(h))
+    for it in pat_fns:
         sc = Q.Scope(fns).add_fn(it)
-        zips = [m for m in find(it["body"], "mcall") if m[2] == "zip" and m[4]]      # in a `for` header, a named local, or an adaptor chain alike
+        zips = [z for z in own_zips(it) if not (id(it) in called and parametric(it, z))]
+        # the pairing helper's zip, once per call, with the helper's parameters bound to this caller's arguments
+        for c in list(find(it["body"], "call")):
+            h = fns.callee(c, it["mod"])
+            if h is None or id(h) not in called or h is it:
+                continue
+            body = sc.inline(c, h)
+            if body is None:
+                rep.note("undecided", {"rule": "C16-R7", "fn": it["name"], "why": "the call of the pairing helper %s cannot be bound to its parameters" % h["name"]})
+                continue
+            zips += [m for m in find(body, "mcall") if m[2] == "zip" and m[4]]
         for z in zips:
             ops = [z[1], z[4][0]]
+
+            def named_iterator(o):
+                """a local that names an iterator chain stands for that chain (a `.rev()` behind a local is still a `.rev()`); other locals stay"""
+                for _ in range(4):
+                    b = sc.binding(o) if is_node(o) and o[0] == "path" else None
+                    if sc.stable(b) and is_node(b.src) and b.src[0] == "mcall":
+                        o = b.src
+                    else:
+                        break
+                return o
+            ops = [named_iterator(o) for o in ops]
             n += 1
             bad = []
             for o in ops:
@@ -379,8 +423,52 @@ def broadcast_shape(F, rep, fns):
 
     loops = [f for t in trees for f in find(t, "for") if any(m[2] == "push" for m in find(f[3], "mcall")) and any(is_apply(c) for c in find(f[3], "call"))]
     source = None       # binding of the matrix whose elements are enumerated
-    if not loops and any(is_apply(c) for t in trees for cl in find(t, "closure") for c in find(cl, "call")):
-        rep.note("undecided", {"rule": "C16-R10", "why": "the function is applied to the elements inside a closure (iterator chain), not in a `for` loop with a push"})
+    chains = []
+    if not loops:
+        # iterator adaptor == loop: `<elements>.into_iter().map(|e| f(.., e, ..)).collect::<Result<Vec<_>, _>>()?`
+        for t in trees:
+            for mc in find(t, "mcall"):
+                if mc[2] != "collect":
+                    continue
+                adaptors, e = [], mc[1]
+                while is_node(e) and e[0] == "mcall":
+                    adaptors.append(e)
+                    e = e[1]
+                maps = [a for a in adaptors if a[2] == "map" and a[4] and is_node(a[4][0]) and a[4][0][0] == "closure" and any(is_apply(c) for c in find(a[4][0][2], "call"))]
+                if maps:
+                    chains.append((mc, adaptors, maps, e))
+    if chains:
+        rep.check(len(chains) == 1, "C16-R10", "anchor:element-loop", "the element loop was not found (%d iterator chains apply the function)" % len(chains))
+        mc, adaptors, maps, src = chains[0]
+        others = sorted({a[2] for a in adaptors if a is not maps[0]} - {"into_iter", "iter"})
+        reordering = sorted(set(others) & {"rev", "skip", "skip_while", "take", "take_while", "step_by", "filter", "filter_map", "chain", "cycle", "zip", "flat_map", "flatten", "dedup", "sorted"})
+        src_chain = sc.chain(src)
+        src_call = [x for x in src_chain if is_node(x) and x[0] == "call" and last(path_of(x[1])) == "matrix_like_values"]
+        if src_call and src_call[0][2]:
+            source = sc.root(src_call[0][2][0])
+        cl = maps[0][4][0]
+        body = cl[2]
+        while is_node(body) and body[0] in ("block", "unsafe") and len(body[1]) == 1 and body[1][0][0] == "expr" and not body[1][0][2]:
+            body = body[1][0][1]
+        direct = len(maps) == 1 and is_node(body) and body[0] == "call" and is_apply(body)      # exactly f(element) per element, its Result handed to collect
+        elem = sc.decl.get(id(cl), [])
+        arg_ok = direct and len(body[2]) >= 2 and bool(elem) and sc.mentions(body[2][1], elem[0])
+        propagated = any(t_[0] == "try" and t_[1] is mc for t in trees for t_ in find(t, "try")) and "Result" in (mc[3] or "")
+        if reordering or not src_call or (direct and not arg_ok):
+            why = "reordered-or-partial-iteration" if reordering else "not-all-elements" if not src_call else "argument"
+            rep.bad("C16-R10", "broadcast:element-loop:%s" % why,
+                    "try_broadcast_user_function maps the function over `%s` with %s: the output does not hold f(element) for every element in storage order" % (
+                        render(src)[:40], ("adaptors " + ",".join(reordering)) if reordering else "a source that is not matrix_like_values(source)" if not src_call else "an argument that is not the element"),
+                    "try_broadcast_user_function (mech_interpreter.lib)")
+        elif direct and not others and propagated:
+            rep.ok("C16-R10", "broadcast:every-element-in-order")
+        else:
+            rep.obligations += 1
+            rep.discharged += 1
+            rep.note("undecided", {"rule": "C16-R10", "why": "the function is applied inside an iterator chain `%s` whose shape is not recognised (adaptors %s, direct=%s, errors propagated=%s)" % (
+                render(mc)[:80], others, direct, propagated)})
+    elif not loops and any(is_apply(c) for t in trees for cl in find(t, "closure") for c in find(cl, "call")):
+        rep.note("undecided", {"rule": "C16-R10", "why": "the function is applied to the elements inside a closure, not in a `for` loop with a push or a map/collect chain"})
     elif rep.check(len(loops) == 1, "C16-R10", "anchor:element-loop", "the element loop was not found (%d)" % len(loops)):
         lp = loops[0]
         it_txt = render(lp[2]).replace(" ", "")
